@@ -338,11 +338,25 @@ def canonicalize(repo: Repo, chk: Check, rule: str = "C10.canon") -> None:
     chk.result(norm.match(T("reversed(self.strides)"), loops[0].node.iter) is not None, rule, f"{f.key}:inner-first", loops[0].where(),
                "levels are visited innermost first")
     # merges: stores strides[0] = Stride(...)
-    merges = [s for s in fl.stmts(ast.Assign) if s.reachable and isinstance(s.node.targets[0], ast.Subscript) and callee_name(s.node.value) == "Stride"]
+    def _merged_value(s: Site) -> ast.expr | None:
+        """the Stride a store puts into the collected list: written in place, or what a helper is known to return (`<call> is Stride(..)`)"""
+        v_ = norm.primary(s.expand(s.node.value))
+        if isinstance(v_, ast.Call) and callee_name(v_) == "Stride":
+            return v_
+        if isinstance(v_, ast.Call):
+            txt = ast.unparse(norm.canon(v_))
+            for fa in s.facts:
+                if fa.kind == "atom" and isinstance(fa.expr, ast.Compare) and len(fa.expr.ops) == 1 and isinstance(fa.expr.ops[0], ast.Is) and ast.unparse(fa.expr.left) == txt \
+                        and isinstance(fa.expr.comparators[0], ast.Call) and callee_name(fa.expr.comparators[0]) == "Stride":
+                    return fa.expr.comparators[0]
+        return None
+
+    merges = [s for s in fl.stmts(ast.Assign) if s.reachable and s.loops and isinstance(s.node.targets[0], ast.Subscript) and _merged_value(s) is not None]
     if not merges:
         raise AnalysisError(f"{f.where}: merge `strides[0] = Stride(...)` not found")
     for s in merges:
-        v = s.expand(s.node.value)
+        v = _merged_value(s)
+        assert v is not None
         m = norm.any_match(["Stride($p.step, $p.bound * $o.bound)", "Stride($p.step, $o.bound * $p.bound)"], v, {"o": lv})
         chk.result(m is not None, rule, f"{f.key}:merged-value", s.where(), "merged level = (inner step, inner bound * outer bound)",
                    f"merged level is {ast.unparse(v)[:80]}")
